@@ -431,6 +431,8 @@ impl Case for C03Case {
     fn execute(&self) -> Verdict {
         let mut v = Verdict::default();
         let mut w = World::booted(self.sched(), self.entropy, false);
+        // in a quarter of the cases every Ctrl-C reaches the runtime twice before the next slice
+        w.double_intr = self.entropy % 4 == 1;
         let mut edits_with_live_snapshot = 0u64;
         for op in &self.ops {
             if w.fatal.is_some() {
@@ -668,6 +670,7 @@ impl Case for C03Case {
             .set("quantum_schedule_variant", self.sched_variant)
             .set("quantum_schedule_seed", self.sched_seed)
             .set("entropy", self.entropy)
+            .set("every_interrupt_delivered_twice", self.entropy % 4 == 1)
             .build()
     }
 }
